@@ -275,6 +275,7 @@ func (c16) Run(t TestingT, scn json.RawMessage, tape *Tape) *Outcome {
 	outs := s.Outs
 	o.AbsorbSim(s)
 	o.KeepTrace(s)
+	o.NonDet = sc.BothReady
 	if pan != nil {
 		o.Violate("C16/panic-or-blocked", "bubble ended with: %v; leftovers=%v", pan, s.Leaked)
 	}
